@@ -20,6 +20,12 @@ Executable model (core Lean only) of
   and what `RPC_process_related_viewgrams_gradient` / `…_sensitivity_computation` back project
   (PoissonLogLikelihoodWithLinearModelForMeanAndProjData.cxx:1447-1563), over an explicit system matrix: `emExplicit`
 
+* the filter slots as objects (end of this file): `ChainedDataProcessor::virtual_apply` (src/buildblock/ChainedDataProcessor.cxx:47-54),
+  `ThresholdMinToSmallPositiveValueDataProcessor::virtual_apply` (….cxx:38-52), the wrapping of the inter-update /
+  inter-iteration slot by EVERY call of `OSMAPOSLReconstruction::set_up` (l.300-305, 316-322): `Filt`, `setUpSlot`, `Slots`,
+  `updateEstimateS`, `endOfIterationS`
+* `divide_and_truncate(Viewgram&, const Viewgram&, …)`   src/buildblock/recon_array_functions.cxx:172-266: `divideAndTruncate`
+
 Numbers are `Rat` (every float is a dyadic rational; float *rounding* is not modelled, the correspondence check
 compares with a derived tolerance).  Where float arithmetic leaves the rationals (non-zero / 0) the model uses `Ext`.
 
@@ -474,5 +480,123 @@ def emExplicit (c : Cfg) (zeroSeg0EndPlanes useSubsetSens : Bool) (maxSeg : Int)
     estimate -/
 def regularStep (zeroSeg0EndPlanes : Bool) (maxSeg : Int) (numSubsets subset : Nat) (rows : List Row) (lam : Img) : Bool :=
   (subsetViewgrams zeroSeg0EndPlanes maxSeg numSubsets subset rows).all fun r => r.y == 0 || fwdRow lam r + r.a != 0
+
+/-! ### the filter slots as OBJECTS: user chains, what `set_up` does to a slot, repeated `set_up`
+
+`Cfg.interUpdateFilter` / `Cfg.interIterationFilter` above are "the user's filter, thresholding chained behind it once".
+What the class really holds are `shared_ptr<DataProcessor<TargetT>>` slots (`inter_update_filter_ptr`,
+`inter_iteration_filter_ptr`, `post_filter_sptr`) whose content EVERY call of `OSMAPOSLReconstruction::set_up` replaces
+by `ChainedDataProcessor(content, ThresholdMinToSmallPositiveValueDataProcessor)` (OSMAPOSLReconstruction.cxx:300-305,
+316-322) — whatever the content is: a single filter, a `ChainedDataProcessor` the USER made (registered name
+`Chained Data Processor`, keys `Data Processor to apply first` / `Data Processor to apply second`), a chain of chains, or
+the wrapper of an earlier `set_up`.  `update_estimate` (l.469-474) and `end_of_iteration_processing`
+(IterativeReconstruction.cxx:545-563) then `apply` the slot's object as it is. -/
+
+/-- a `DataProcessor<TargetT>` object as it sits in a filter slot -/
+inductive Filt where
+  /-- any data processor other than the two below: what it does to an image is data for this model (C09) -/
+  | user (f : Img → Img)
+  /-- `ThresholdMinToSmallPositiveValueDataProcessor` (ThresholdMinToSmallPositiveValueDataProcessor.cxx:38-52):
+      `threshold_min_to_small_positive_value(begin_all, end_all, 0.000001F)` -/
+  | threshold
+  /-- `ChainedDataProcessor(apply_first, apply_second)` -/
+  | chain (first second : Filt)
+  /-- a null pointer (an empty slot; a member of a chain that was not given) -/
+  | null
+
+/-- `is_null_ptr` -/
+def Filt.isNull : Filt → Bool
+  | .null => true
+  | _ => false
+
+/-- `DataProcessor::apply(data)` (in place).  `ChainedDataProcessor::virtual_apply` (ChainedDataProcessor.cxx:47-54):
+    `if (!is_null_ptr(apply_first)) apply_first->apply(data); if (!is_null_ptr(apply_second)) apply_second->apply(data);` -/
+def Filt.apply : Filt → Img → Img
+  | .user f, img => f img
+  | .threshold, img => thresholdMinToSmallPositive img smallNum
+  | .chain a b, img => b.apply (a.apply img)
+  | .null, img => img
+
+/-- what ONE call of `OSMAPOSLReconstruction::set_up` does to a filter slot (l.300-305 resp. l.316-322):
+    `if (interval > 0 && !is_null_ptr(ptr)) ptr.reset(new ChainedDataProcessor(ptr, thresholding_sptr));`
+    — no look at what `ptr` is. -/
+def setUpSlot (interval : Nat) (f : Filt) : Filt :=
+  if interval > 0 && !f.isNull then .chain f .threshold else f
+
+/-- the slot after `n` consecutive calls of `set_up` -/
+def setUpSlotN (interval : Nat) : Nat → Filt → Filt
+  | 0, f => f
+  | n + 1, f => setUpSlotN interval n (setUpSlot interval f)
+
+/-- the three filter slots of an `OSMAPOSLReconstruction` -/
+structure Slots where
+  interUpdate : Filt := .null        -- `inter_update_filter_ptr` (key `inter-update filter type`)
+  interIteration : Filt := .null     -- `inter_iteration_filter_ptr` (key `inter-iteration filter type`)
+  post : Filt := .null               -- `post_filter_sptr` (key `post-filter type`): `set_up` does not wrap it
+
+/-- `OSMAPOSLReconstruction::set_up` on the slots -/
+def Slots.setUp (c : Cfg) (s : Slots) : Slots :=
+  { interUpdate := setUpSlot c.interUpdateInterval s.interUpdate,
+    interIteration := setUpSlot c.interIterationInterval s.interIteration,
+    post := s.post }
+
+/-- `n` consecutive calls of `set_up` on one object -/
+def Slots.setUpN (c : Cfg) : Nat → Slots → Slots
+  | 0, s => s
+  | n + 1, s => Slots.setUpN c n (Slots.setUp c s)
+
+/-- `if (interval > 0 && !is_null_ptr(ptr) && !(subiteration_num % interval)) ptr->apply(image)`
+    (OSMAPOSLReconstruction.cxx:469-474, IterativeReconstruction.cxx:545-550) -/
+def slotFiltered (interval : Nat) (slot : Filt) (k : Nat) (img : Img) : Img :=
+  if interval > 0 ∧ k % interval = 0 then slot.apply img else img
+
+/-- `update_estimate` (l.373-512) of an object whose slots hold `s` (`c.interUpdateFilter` is not looked at) -/
+def updateEstimateS (c : Cfg) (s : Slots) (k : Nat) (img : Img) : List Ext :=
+  let S := subsetNum k c.startSubset c.numSubsets
+  let g := c.gps S img
+  let sens := c.sens S
+  let pg := match c.map with
+    | .none => g.map fun _ => 0
+    | _ => c.priorGrad img
+  let small := smallValue g (divideSmallNum c.map)
+  let img1 := slotFiltered c.interUpdateInterval s.interUpdate k img
+  zip4With (updVoxel c.map c.numSubsets small (k != 1) c.minRel c.maxRel) img1 g sens pg
+
+/-- `end_of_iteration_processing` (IterativeReconstruction.cxx:545-563) of an object whose slots hold `s`: inter-iteration
+    filter, then `if (subiteration_num == num_subiterations && !is_null_ptr(post_filter_sptr)) post_filter_sptr->apply(…)` -/
+def endOfIterationS (c : Cfg) (s : Slots) (last k : Nat) (img : Img) : Img :=
+  let img1 := slotFiltered c.interIterationInterval s.interIteration k img
+  if k = last then s.post.apply img1 else img1
+
+/-- loop body of `reconstruct(target)` of an object whose slots hold `s` -/
+def subIterS (c : Cfg) (s : Slots) (last k : Nat) (img : Img) : Option Img :=
+  (allFin (updateEstimateS c s k img)).map (endOfIterationS c s last k)
+
+/-- the slot's content as the "user filter" of `Cfg` -/
+def Filt.toOption (f : Filt) : Option (Img → Img) := if f.isNull then none else some f.apply
+
+/-- the configuration of the model above that an object with user slots `s` stands for -/
+def Cfg.ofSlots (c : Cfg) (s : Slots) : Cfg :=
+  { c with interUpdateFilter := s.interUpdate.toOption, interIterationFilter := s.interIteration.toOption }
+
+/-! ### `divide_and_truncate` on viewgrams (src/buildblock/recon_array_functions.cxx:172-266, `rim_truncation_sino = 0`) -/
+
+/-- `SMALL_NUM` (recon_array_functions.cxx:44) -/
+def dtSmallNum : Rat := 1 / 1000000
+
+/-- `max_quotient` (l.227) -/
+def maxQuotient : Rat := 10000
+
+/-- `small_value = max(numerator.find_max() * SMALL_NUM, 0.F)` (l.185) -/
+def dtSmallValue (num : List Rat) : Rat := stdMax (maxElem num * dtSmallNum) 0
+
+/-- one bin (l.219-249): `if (num <= small_value) num = 0; else if (num > max_quotient * denom) num = max_quotient;
+    else num = num / denom;` — no division by zero on any path (`0/0` is `0`, `x/0` with `x > small_value` is `max_quotient`) -/
+def divideAndTruncate1 (small num den : Rat) : Rat :=
+  if num ≤ small then 0 else if num > maxQuotient * den then maxQuotient else num / den
+
+/-- one viewgram: numerator and denominator in the same bin order -/
+def divideAndTruncate (num den : List Rat) : List Rat :=
+  List.zipWith (divideAndTruncate1 (dtSmallValue num)) num den
 
 end StirVerif.C07
